@@ -16,8 +16,8 @@ prop, k = sys.argv[1], sys.argv[2]
 checks = sys.argv[3:] or [prop]
 REPO2 = os.environ.get("SEED_REPO", "/repo")
 VERIF2 = os.environ.get("SEED_VERIF", "/verif")
-wt = f"/tmp/seed_{prop}"
-src = f"{wt}/out/{k}"
+wt = os.environ.get("SEED_WT", f"/tmp/seed_{prop}")
+src = os.environ.get("SEED_SRC", f"{wt}/out/{k}")
 dst = f"/verif/seeded/{prop}-{k}"
 env = dict(os.environ, PYTHONPATH=wt)
 
